@@ -144,7 +144,8 @@ def run(ctx):
     for p in ("override_encoding", "transport_encoding", "same_origin_parent_encoding", "likely_encoding", "default_encoding"):
         ok = p in params and any(isinstance(n, ast.Assign) and attr_chain(n.targets[0]) == ["self", p]
                                  and isinstance(n.value, ast.Name) and n.value.id == p for n in ast.walk(init.node))
-        r.check("C06.1", ok, "wiring:%s" % p, init.where, "constructor does not store the %s argument under self.%s" % (p, p))
+        r.idiom("C06.1", ok, "wiring:%s" % p, init.where, "constructor does not store the %s argument under self.%s" % (p, p),
+                wrong=[(p not in params, "the documented %s argument vanished from the constructor" % p)])
     a = init.node.args
     defaults = dict(zip([x.arg for x in a.args][-len(a.defaults):], a.defaults))
     r.check("C06.1", isinstance(defaults.get("default_encoding"), ast.Constant) and defaults["default_encoding"].value == "windows-1252",
@@ -152,7 +153,7 @@ def run(ctx):
     # BOM result goes through lookupEncoding
     bom = repo.func(REL, "HTMLBinaryInputStream.detectBOM")
     rets = [n for n in ast.walk(bom.node) if isinstance(n, ast.Return) and n.value is not None]
-    r.check("C06.1", all(norm(x.value) == "None" or norm(x.value).startswith("lookupEncoding(") for x in rets) and rets,
+    r.idiom("C06.1", all(norm(x.value) == "None" or norm(x.value).startswith("lookupEncoding(") for x in rets) and rets,
             "bom-through-lookup", bom.where, "detectBOM returns a label that did not pass through lookupEncoding")
 
     # ---- C06.2
@@ -235,8 +236,12 @@ def run(ctx):
         if len(t.handlers) == 1 and norm(t.handlers[0].type) == "_ReparseException" and "self.mainLoop" in body_calls:
             hc = [norm(c.func) for s in t.handlers[0].body for c in ast.walk(s) if isinstance(c, ast.Call)]
             okp = hc == ["self.reset", "self.mainLoop"]
-    r.check("C06.3", okp, "_parse-rerun", parse.where,
-            "_parse must catch exactly _ReparseException around mainLoop() and re-run reset(); mainLoop()")
+    hc_all = [norm(c.func) for t in tries for h in t.handlers for s in h.body for c in ast.walk(s) if isinstance(c, ast.Call)]
+    r.idiom("C06.3", okp, "_parse-rerun", parse.where,
+            "_parse must catch exactly _ReparseException around mainLoop() and re-run reset(); mainLoop()",
+            wrong=[(len(tries) == 1 and "self.mainLoop" in hc_all and "self.reset" not in hc_all,
+                    "the re-parse after an encoding change does not reset the parser first: the tree of the first pass is kept"),
+                   (len(tries) == 1 and "self.mainLoop" not in hc_all, "the _ReparseException handler does not run the main loop again")])
     imp = repo.module("html5parser.py").imports.get("_ReparseException")
     imp2 = repo.module(REL).imports.get("_ReparseException")
     r.check("C06.3", imp == imp2 == ("html5lib.constants", "_ReparseException"), "same-exception", parse.where,
@@ -256,7 +261,7 @@ def run(ctx):
             "charEncoding is stored outside the constructors / changeEncoding: %s" % sorted(storers - allowed),
             {"writers": sorted(storers)}, detail={"writers": sorted(storers)})
     binit = [n for n in ast.walk(init.node) if isinstance(n, ast.Assign) and attr_chain(n.targets[0]) == ["self", "charEncoding"]]
-    r.check("C06.4", len(binit) == 1 and norm(binit[0].value).startswith("self.determineEncoding("), "init-from-determine",
+    r.idiom("C06.4", len(binit) == 1 and norm(binit[0].value).startswith("self.determineEncoding("), "init-from-determine",
             init.where, "the binary stream's encoding is not the result of determineEncoding")
     n_calls = 0
     for f in repo.all_functions():
@@ -308,20 +313,22 @@ def run(ctx):
                     "a detection read of rawStream can reach the function's exit without a seek (path %s): the decoder would "
                     "start in the middle of the input" % (bad[0][1][:5] if bad else ""), detail={"function": q})
     rd = [c for c in walk_no_nested(meta.node) if isinstance(c, ast.Call) and norm(c.func) == "self.rawStream.read"]
-    r.check("C06.5", len(rd) == 1 and norm(rd[0].args[0]) == "self.numBytesMeta", "prescan-length-expr", meta.where,
+    r.idiom("C06.5", len(rd) == 1 and norm(rd[0].args[0]) == "self.numBytesMeta", "prescan-length-expr", meta.where,
             "the prescan does not read exactly self.numBytesMeta bytes")
     nb = [n for n in ast.walk(init.node) if isinstance(n, ast.Assign) and attr_chain(n.targets[0]) == ["self", "numBytesMeta"]]
-    r.check("C06.5", len(nb) == 1 and isinstance(nb[0].value, ast.Constant) and nb[0].value.value == 1024, "prescan-1024",
-            init.where, "numBytesMeta is not 1024")
+    r.idiom("C06.5", len(nb) == 1 and isinstance(nb[0].value, ast.Constant) and nb[0].value.value == 1024, "prescan-1024",
+            init.where, "numBytesMeta is not 1024",
+            wrong=[(len(nb) == 1 and isinstance(nb[0].value, ast.Constant) and nb[0].value.value != 1024, None)])
 
     # ---- C06.6
     de = repo.func("html5parser.py", "HTMLParser.documentEncoding")
     rets = [norm(n.value) for n in ast.walk(de.node) if isinstance(n, ast.Return) and n.value is not None]
-    r.check("C06.6", "self.tokenizer.stream.charEncoding[0].name" in rets, "documentEncoding", de.where,
-            "documentEncoding does not report stream.charEncoding[0].name: %s" % rets)
+    r.idiom("C06.6", "self.tokenizer.stream.charEncoding[0].name" in rets, "documentEncoding", de.where,
+            "documentEncoding does not report stream.charEncoding[0].name: %s" % rets,
+            wrong=[(bool(rets) and not any("charEncoding" in x for x in rets if x != "None"), None)])
     rs = repo.func(REL, "HTMLBinaryInputStream.reset")
     ds = [n for n in ast.walk(rs.node) if isinstance(n, ast.Assign) and attr_chain(n.targets[0]) == ["self", "dataStream"]]
-    r.check("C06.6", len(ds) == 1 and norm(ds[0].value).startswith("self.charEncoding[0].codec_info.streamreader(self.rawStream"),
+    r.idiom("C06.6", len(ds) == 1 and norm(ds[0].value).startswith("self.charEncoding[0].codec_info.streamreader(self.rawStream"),
             "decoder", rs.where, "the decoder is not built from self.charEncoding[0] over rawStream")
 
 
